@@ -13,22 +13,22 @@ import (
 // wrote. Reads block on a channel created inside the bubble (durably blocking for synctest)
 // and honour deadlines on the fake clock.
 type simConn struct {
-	mu       sync.Mutex
-	in       []byte
-	inEOF    bool // client closed its side: Read returns io.EOF once drained
-	reset    bool // link cut: Read and Write fail
-	closed   bool // broker called Close
-	closedAt int64
-	rdl      time.Time
-	wdl      time.Time
-	out      []outChunk
-	wake     chan struct{}
-	stamp    *int64
-	start    time.Time
-	notify   chan struct{} // driver wake-up: the broker wrote or closed
-	skew     time.Duration
+	mu            sync.Mutex
+	in            []byte
+	inEOF         bool // client closed its side: Read returns io.EOF once drained
+	reset         bool // link cut: Read and Write fail
+	closed        bool // broker called Close
+	closedAt      int64
+	rdl           time.Time
+	wdl           time.Time
+	out           []outChunk
+	wake          chan struct{}
+	stamp         *int64
+	start         time.Time
+	notify        chan struct{} // driver wake-up: the broker wrote or closed
+	skew          time.Duration
 	failNextWrite bool
-	resetAt  int64 // when the link went down because a write failed (-1: not that way)
+	resetAt       int64 // when the link went down because a write failed (-1: not that way)
 	// counters for oracles
 	writesAfterClose int
 	bytesOut         int64
